@@ -38,3 +38,7 @@ Definition astep_json_dump (w : aworld) (m : nat) (hroots : rootsH) (vorder : li
 Definition astep_json_load (w : aworld) (m : nat) (jf : jfile) (load_order : bool)
   : aworld * res value :=
   astep_with w m (r <- a_load_json jf load_order ;; ret (rootsH_value r)).
+
+(** [autoref.BDD.add_var(var, level)]: passed through to the wrapped manager *)
+Definition astep_add_var (w : aworld) (m : nat) (v : nat) (l : option nat) : aworld * res value :=
+  astep_with w m (r <- lift (add_var v l) ;; ret (VN r)).
